@@ -2,6 +2,7 @@ package c06
 
 import (
 	"math"
+	"math/big"
 	"strconv"
 	"strings"
 
@@ -25,7 +26,7 @@ func genDigits(t *rapid.T, label string) string {
 	case k < 49:
 		n = rapid.IntRange(300, 800).Draw(t, label+"-n")
 	default:
-		n = rapid.IntRange(801, 1100).Draw(t, label+"-n")
+		n = rapid.IntRange(801, 1500).Draw(t, label+"-n")
 	}
 	s := digitString(t, n, label)
 	if rapid.IntRange(0, 4).Draw(t, label+"-lz") == 0 {
@@ -105,6 +106,9 @@ func genDecimalCore(t *rapid.T) (string, string) {
 	case k < 14:
 		return "Infinity", "Infinity"
 	}
+	if rapid.IntRange(0, 5).Draw(t, "longsticky") == 0 {
+		return genLongSticky(t)
+	}
 	// derived from a double: hard cases for correct rounding
 	x, _ := genDouble(t)
 	x = math.Abs(x)
@@ -127,11 +131,11 @@ func genDecimalCore(t *rapid.T) (string, string) {
 		case 0:
 			return spellDecimal(t, d), "double:midpoint"
 		case 1:
-			d.Digits += strings.Repeat("0", rapid.IntRange(0, 30).Draw(t, "pad")) + "1"
+			d.Digits += strings.Repeat("0", farPad(t, "pad")) + "1"
 			return spellDecimal(t, d), "double:midpoint+"
 		default:
 			// one unit below in the last digit: the last digit of a midpoint expansion is 5
-			d.Digits = d.Digits[:len(d.Digits)-1] + "4" + strings.Repeat("9", rapid.IntRange(0, 30).Draw(t, "pad9"))
+			d.Digits = d.Digits[:len(d.Digits)-1] + "4" + strings.Repeat("9", farPad(t, "pad9"))
 			return spellDecimal(t, d), "double:midpoint-"
 		}
 	default:
@@ -145,6 +149,52 @@ func genDecimalCore(t *rapid.T) (string, string) {
 			}
 		}
 		return spellDecimal(t, d), "double:truncated-expansion"
+	}
+}
+
+// farPad: how far to the right of a rounding tie the deciding digit sits: near (0..30) or beyond any
+// fixed digit budget an implementation might apply (700..1500; 2^-1074 itself has 1074 fraction digits).
+func farPad(t *rapid.T, label string) int {
+	if rapid.IntRange(0, 2).Draw(t, label+"-far") == 0 {
+		return rapid.IntRange(700, 1500).Draw(t, label+"-n")
+	}
+	return rapid.IntRange(0, 30).Draw(t, label+"-n")
+}
+
+// genLongSticky: very long literals in which digits far to the right decide the value: a run of
+// 700..1500 zeros after the point followed by significant digits and an exponent that scales them
+// back into range ("0." + 1200 zeros + "1e1201" is 1), an integer that is an exact tie between two
+// doubles followed by a long run of zeros and one more digit ("9007199254740993." + 1100 zeros +
+// "1" is 2^53+2), or the same shapes with the long run inside the integer part of a scaled-down
+// number.
+func genLongSticky(t *rapid.T) (string, string) {
+	z := rapid.IntRange(700, 1500).Draw(t, "zrun")
+	zeros := strings.Repeat("0", z)
+	switch rapid.IntRange(0, 3).Draw(t, "stickykind") {
+	case 0: // leading fraction zeros, digits, exponent that brings them back
+		nd := rapid.IntRange(1, 20).Draw(t, "snd")
+		ds := strconv.Itoa(rapid.IntRange(1, 9).Draw(t, "sd0")) + digitString(t, nd-1, "sd")
+		shift := rapid.IntRange(-8, 25).Draw(t, "shift")
+		lead := rapid.SampledFrom([]string{"0.", ".", "00.", "0.0"}).Draw(t, "slead")
+		return lead + zeros + ds + rapid.SampledFrom([]string{"e", "E", "e+"}).Draw(t, "sech") + strconv.Itoa(z+shift), "long:zeros-digits-exp"
+	case 1: // tie integer, point, zeros, deciding digit
+		j := rapid.Int64Range(1<<52, 1<<53-1).Draw(t, "tiem")
+		sh := rapid.IntRange(1, 10).Draw(t, "tiesh")
+		// (2j+1)·2^(sh-1) lies exactly half way between the doubles j·2^sh and (j+1)·2^sh
+		tie := new(big.Int).Lsh(big.NewInt(2*j+1), uint(sh-1)).String()
+		tail := rapid.SampledFrom([]string{"1", "5", "9", "0"}).Draw(t, "tietail")
+		return tie + "." + zeros + tail, "long:tie-zeros-digit"
+	case 2: // tie just missed from below: …4999…9 with a long run of nines
+		j := rapid.Int64Range(1<<52, 1<<53-1).Draw(t, "tiem")
+		sh := rapid.IntRange(1, 10).Draw(t, "tiesh")
+		tie := new(big.Int).Lsh(big.NewInt(2*j+1), uint(sh-1))
+		tie.Sub(tie, big.NewInt(1))
+		return tie.String() + "." + strings.Repeat("9", z) + rapid.SampledFrom([]string{"", "8", "e0", "e-0"}).Draw(t, "ninetail"), "long:tie-minus-nines"
+	default: // a tie scaled down: digits of the tie, then zeros and a digit, all behind "0." with an exponent
+		j := rapid.Int64Range(1<<52, 1<<53-1).Draw(t, "tiem")
+		tie := big.NewInt(2*j + 1).String() // half way between 2j and 2j+2
+		tail := rapid.SampledFrom([]string{"1", "0", "3"}).Draw(t, "tietail")
+		return "0." + tie + zeros + tail + "e" + strconv.Itoa(len(tie)), "long:scaled-tie"
 	}
 }
 
@@ -195,7 +245,19 @@ func genWS(t *rapid.T, label string) []uint16 {
 }
 
 // characters used by one-edit mutations: everything the grammars use, look-alikes and near white space.
-var mutChars = []uint16{'0', '1', '5', '7', '8', '9', '.', '.', 'e', 'E', '+', '-', 'x', 'X', '_', 'a', 'f', 'I', 'n', 'i', 't', 'y', 'N', 'p', 'b', 'o', '$', ',', ' ', '\t', '\n', 0x00A0, 0x2028, 0xFEFF, 0x0000, 0x200B, 0x0085, 0x0661, 0xFF11, 0x00E9}
+// lookAlikes: non-ASCII characters that Go's unicode predicates and case mappings (IsDigit, IsNumber,
+// IsLetter, IsSpace, ToLower, ToUpper, simple folding) relate to the ASCII digits, letters and blanks of
+// the ES5 grammars, although none of them is a digit, a radix letter, an exponent indicator or a
+// StrWhiteSpaceChar: KELVIN SIGN (lower case k), I WITH DOT ABOVE (lower case i), DOTLESS I (upper
+// case I), LONG S (upper case S), ANGSTROM SIGN, fullwidth digits and letters, Arabic-Indic /
+// extended Arabic-Indic / Devanagari / Thai digits, superscripts and subscripts, Roman numerals, ordinal
+// indicators, Greek and Cyrillic look-alikes of a e x X, ZWSP, NEL, WORD JOINER, SOFT HYPHEN, FIGURE
+// DASH / MINUS SIGN / FULLWIDTH PLUS, fullwidth full stop.
+var lookAlikes = []uint16{0x212A, 0x0130, 0x0131, 0x017F, 0x212B, 0xFF10, 0xFF11, 0xFF19, 0xFF21, 0xFF26, 0xFF3A, 0xFF41, 0xFF45, 0xFF58, 0xFF5A,
+	0x0660, 0x0661, 0x0669, 0x06F1, 0x0967, 0x0E51, 0x00B2, 0x00B3, 0x00B9, 0x2070, 0x2081, 0x2160, 0x2167, 0x00AA, 0x00BA, 0x03B1, 0x0430, 0x0435, 0x0445, 0x0425, 0x0456,
+	0x200B, 0x0085, 0x2060, 0x00AD, 0x2012, 0x2212, 0xFF0B, 0xFF0E, 0x066B}
+
+var mutChars = append([]uint16{'0', '1', '5', '7', '8', '9', '.', '.', 'e', 'E', '+', '-', 'x', 'X', '_', 'a', 'f', 'I', 'n', 'i', 't', 'y', 'N', 'p', 'b', 'o', '$', ',', ' ', '\t', '\n', 0x00A0, 0x2028, 0xFEFF, 0x0000, 0x200B, 0x0085, 0x0661, 0xFF11, 0x00E9}, lookAlikes...)
 
 func mutate16(t *rapid.T, u []uint16, chars []uint16) ([]uint16, string) {
 	out := append([]uint16(nil), u...)
@@ -258,7 +320,17 @@ func genWholeString(t *rapid.T) ([]uint16, string, string) {
 	return u, kind, mut
 }
 
-var junkSuffixes = []string{"px", "e", "e+", "e-", ".", "..", ".5", "_1", "_", "x", "x1", " 1", " ", "Infinity", "e5", "-", "+1", "-1", "n", "f", "p1", " ", "é", "١", ",5", "$", "\u00000", "\n2"}
+var junkSuffixes = append(lookAlikeSuffixes(), "px", "e", "e+", "e-", ".", "..", ".5", "_1", "_", "x", "x1", " 1", " ", "Infinity", "e5", "-", "+1", "-1", "n", "f", "p1", " ", "é", "١", ",5", "$", "\u00000", "\n2")
+
+// lookAlikeSuffixes: every look-alike alone, followed by a digit and between letters, plus an astral
+// digit (U+1D7CE MATHEMATICAL BOLD DIGIT ZERO) and an astral cased letter (U+10400).
+func lookAlikeSuffixes() []string {
+	var out []string
+	for _, c := range lookAlikes {
+		out = append(out, string(rune(c)), string(rune(c))+"1", string(rune(c))+"z")
+	}
+	return append(out, "\U0001D7CE", "\U0001D7CE1", "\U00010400", "\U00010400f")
+}
 
 // genPrefixString: a candidate for parseFloat: like genWholeString but often followed by junk.
 func genPrefixString(t *rapid.T) ([]uint16, string, string) {
